@@ -578,11 +578,11 @@ def run(ctx):
 
     ngrids = 2 if quick else 20
     GRIDS = [dict(NT=5, T_MIN=0, DT=100, NTV=6, P_MIN=0, DELTA_P=10, nvol=8),
-             dict(NT=3, T_MIN=10.5, DT=12.5, NTV=7, P_MIN=1.5, DELTA_P=2.5, nvol=7)]
+             dict(NT=3, T_MIN=10.5, DT=12.5, NTV=7, P_MIN=1.125, DELTA_P=2.625, nvol=7)]   # labels need 3 decimals
     while len(GRIDS) < ngrids:
         GRIDS.append(dict(NT=ctx.rng.randint(1, 6), T_MIN=ctx.rng.choice([0, 0.5, 300, 273.15]),
                           DT=ctx.rng.choice([1, 10, 25.5, 200, 0.1]), NTV=ctx.rng.randint(4, 9),
-                          P_MIN=ctx.rng.choice([0, 5, 0.25, 20]), DELTA_P=ctx.rng.choice([1, 0.5, 3.3, 20]),
+                          P_MIN=ctx.rng.choice([0, 5, 0.25, 20, 0.125, 0.005]), DELTA_P=ctx.rng.choice([1, 0.5, 3.3, 20, 0.125, 0.075]),
                           nvol=ctx.rng.randint(6, 10)))
     cross_files = {}
     for gi, grid in enumerate(GRIDS[:ngrids]):
@@ -624,8 +624,8 @@ def run(ctx):
     for ri in range(nreal):
         g = [dict(NT=4, T_MIN=0, DT=100, NTV=6, P_MIN=0, DELTA_P=2),
              dict(NT=6, T_MIN=20, DT=37.5, NTV=9, P_MIN=1, DELTA_P=1.5),
-             dict(NT=3, T_MIN=300, DT=250, NTV=5, P_MIN=2.5, DELTA_P=0.75),
-             dict(NT=8, T_MIN=0, DT=12.5, NTV=12, P_MIN=0, DELTA_P=1.25)][ri % 4]
+             dict(NT=3, T_MIN=300, DT=250, NTV=5, P_MIN=2.5, DELTA_P=0.375),
+             dict(NT=8, T_MIN=0, DT=12.5, NTV=12, P_MIN=0.005, DELTA_P=0.625)][ri % 4]
         out = dict(pressure_base=["cij", "isothermal_elastic_moduli", "bm_VRH", "B_V", "G_R", "G_VRH", "v", "vs", "vp",
                                   dict(keyword="bm_R", fname="reuss_kbar.txt", unit="kbar")],
                    volume_base=["p", "cij_t", "adiabatic_elastic_moduli", "shear_modulus_voigt", "v_s"])
